@@ -407,7 +407,10 @@ fn scripted_run(e: Entry, base: usize, max_iter: usize, script: &[(usize, usize)
             None => default,
         }
     };
-    // base functions: 0 = root-free x^2+1, 1 = non-differentiable |x|+1, 2 = x^2-2 (has a root)
+    // base functions: 0 = root-free x^2+1, 1 = non-differentiable |x|+1, 2 = x^2-2 (has a root);
+    // bases 3..5 are the same three functions started at 0 (zero derivative / kink at the first step)
+    let start = if base >= 3 { 0.0 } else { 1.5 };
+    let base = base % 3;
     let fb = |x: f64| -> f64 {
         match base {
             0 => x * x + 1.0,
@@ -418,7 +421,7 @@ fn scripted_run(e: Entry, base: usize, max_iter: usize, script: &[(usize, usize)
     let out = catch(|| -> (Vec<u64>, bool) {
         match e {
             Entry::F64 => {
-                let mut nw = Newton::<f64>::new(1.5);
+                let mut nw = Newton::<f64>::new(start);
                 nw.iterations(max_iter);
                 let before = nw.parameters();
                 let r = nw.solve(&|x| answer(fb(x)));
@@ -429,7 +432,7 @@ fn scripted_run(e: Entry, base: usize, max_iter: usize, script: &[(usize, usize)
                 }
             }
             Entry::Cmplx => {
-                let mut nw = Newton::<Cmplx>::new(Cmplx::new(1.5, 0.0));
+                let mut nw = Newton::<Cmplx>::new(Cmplx::new(start, 0.0));
                 nw.iterations(max_iter);
                 let before = nw.parameters();
                 let r = nw.solve(&|z: Cmplx| Cmplx::new(answer(fb(z.real)), 0.0));
@@ -540,8 +543,11 @@ fn explore_scripts(ctx: &Ctx, e: Entry, base: usize, max_iter: usize, dmax: usiz
                 if *n1 > eval_bound(e, max_iter) {
                     fail(format!("{} evaluations exceed the bound {} for max_iter = {}", n1, eval_bound(e, max_iter), max_iter), st);
                 }
-                if script.is_empty() && base < 2 && b1[0] == 1 {
+                if script.is_empty() && base % 3 < 2 && b1[0] == 1 {
                     fail("success reported on a root-free function".to_string(), st);
+                }
+                if matches!(e, Entry::F64 | Entry::Cmplx) && b1[0] == 1 && b1[1..].iter().any(|b| !f64::from_bits(*b).is_finite()) {
+                    fail(format!("success reported with a non-finite point {:?}", b1[1..].iter().map(|b| f64::from_bits(*b)).collect::<Vec<_>>()), st);
                 }
                 if max_iter == 0 && b1[0] == 1 {
                     fail("success reported with max_iter = 0".to_string(), st);
@@ -572,7 +578,7 @@ fn explore_scripts(ctx: &Ctx, e: Entry, base: usize, max_iter: usize, dmax: usiz
 fn main() {
     let ctx = Ctx::from_args("C17");
     ctx.level("model_checking");
-    ctx.rule("E1 (convergence): 11 scalar real families with analytic roots (quadratic, cubic, exp, sin, x - cos x) x 9 guesses across a conservatively computed basin x tol in {1e-12..1e-4} x max_iter in {0,1,2,3,5,20,50} x delta in {1e-8,1e-6}; 5 complex scalar families x 9 guesses; real and complex systems F(x) = Dx + eps g(x) - b of dimension 1..6 with finite-difference and user-supplied Jacobians. Ok(x) => distance to the root <= 4 tol kappa + 1e-12; enough iterations (exact Newton count + 2) => Ok; Err carries the iterate after max_iter exact Newton steps; max_iter = 0 => Err(guess) bit for bit; evaluations <= 3 (scalar) / n+2 (systems) per iteration; parameters() unchanged; repeated calls bit-identical. E4 (termination): depth-first exploration of ALL answer scripts of the user closure - at every call position every answer in {0, NaN, +inf, 1e300, -default} - up to 1 (quick) / 2 (thorough) deviations, for all six entry points, max_iter 0..3, on root-free, non-differentiable and ordinary base functions: the call returns, evaluation bound respected, root-free => Err, two runs of a script identical.");
+    ctx.rule("E1 (convergence): 11 scalar real families with analytic roots (quadratic, cubic, exp, sin, x - cos x) x 9 guesses across a conservatively computed basin x tol in {1e-12..1e-4} x max_iter in {0,1,2,3,5,20,50} x delta in {1e-8,1e-6}; 5 complex scalar families x 9 guesses; real and complex systems F(x) = Dx + eps g(x) - b of dimension 1..6 with finite-difference and user-supplied Jacobians. Ok(x) => distance to the root <= 4 tol kappa + 1e-12; enough iterations (exact Newton count + 2) => Ok; Err carries the iterate after max_iter exact Newton steps; max_iter = 0 => Err(guess) bit for bit; evaluations <= 3 (scalar) / n+2 (systems) per iteration; parameters() unchanged; repeated calls bit-identical. E4 (termination): depth-first exploration of ALL answer scripts of the user closure - at every call position every answer in {0, NaN, +inf, 1e300, -default} - up to 1 (quick) / 2 (thorough) deviations, for all six entry points, max_iter 0..3, on root-free, non-differentiable and ordinary base functions started at 1.5 and at 0 (zero derivative / kink on the first step): the call returns, evaluation bound respected, root-free => Err, a scalar Ok carries a finite point, two runs of a script identical.");
     ctx.assume("basins are computed conservatively from |f'(r)|/(2 max|f''|); a counting closure panics beyond 4x the evaluation bound so that an unbounded loop is reported, not waited for");
     ctx.threshold("scalar_root_error_over_bound", 1.0);
     ctx.threshold("system_root_error_over_bound", 1.0);
@@ -747,7 +753,8 @@ fn main() {
             acc.begin_case();
             match r {
                 Ok((bits, n)) => {
-                    if n > eval_bound(e, mi) || (script.is_empty() && base < 2 && bits[0] == 1) || (mi == 0 && bits[0] == 1) {
+                    let nonfinite = matches!(e, Entry::F64 | Entry::Cmplx) && bits[0] == 1 && bits[1..].iter().any(|b| !f64::from_bits(*b).is_finite());
+                    if nonfinite || n > eval_bound(e, mi) || (script.is_empty() && base % 3 < 2 && bits[0] == 1) || (mi == 0 && bits[0] == 1) {
                         acc.fail_extra(0, format!("{:?}", script), "bounded-work / failure-report oracle violated".into(), rp.extra.clone());
                     }
                 }
@@ -757,7 +764,7 @@ fn main() {
         } else {
             let dmax = ctx.pick(1, 2);
             for e in [Entry::F64, Entry::Cmplx, Entry::Vec, Entry::VecJac, Entry::CVec, Entry::CVecJac] {
-                for base in 0..3 {
+                for base in 0..6 {
                     for mi in 0..=3 {
                         explore_scripts(&ctx, e, base, mi, dmax, &mut st, space);
                     }
